@@ -30,7 +30,9 @@ namespace occa {
     modeDevice_t(const occa::json &json_);
 
     template <class modeType_t>
-    void freeRing(gc::ring_t<modeType_t> ring) {
+    void freeRing(gc::ring_t<modeType_t> &ring) {
+      // Walk the ring itself, not a copy of it: destructors unlink their own
+      // (and their children's) entries, which a copied head would not notice
       while (ring.head) {
         modeType_t *ptr = (modeType_t*) ring.head;
         ring.removeRef(ptr);
